@@ -39,6 +39,18 @@ EXTRA["history2"] = EXTRA["history"] + """
    by reference that the caller edits later), **ordering between two different APIs** (A then B differs from B then A although
    they are independent), **interleaving of two applications / connections / threads** in one process, and **what survives a
    close** (of a connection, a socket, an application) into the next one with the same name or id."""
+EXTRA["combo"] = """5. This time do NOT use caching, memoisation, object sharing or any other stale-state mechanism, and do not depend on an
+   earlier event. Make a plain **logic change** (boundary, sign, operand order, unit, default, swapped dispatch case, weaker /
+   stronger condition, early return, evaluation order) that only shows for **a combination or a scale that testers rarely
+   draw**, still inside the property's "quantified over" domain. Good places: (a) **scale**: the 17th register / 6th qubit /
+   257th label / 1025th instruction / 65537th array entry, many pairs, many applications, deep nesting, long programs or
+   arrays, values at or just past an internal block or chunk size; (b) a **pair of options that are each tested alone but
+   rarely together** (e.g. an info-returning entry point *and* sequential mode, a debug listing *and* a branch, the hardware
+   setting *and* a template, a non-default socket id *and* the context form, two applications *and* the top slot of a unit
+   module); (c) the **extreme member of a small enumeration** (application id 0 or 65535, the last register, the highest
+   virtual qubit, the last Bell state, the last enum member, an empty list, exactly one element); (d) the **less used of two
+   symmetric roles or directions** (receiver vs creator, remote vs local, decode vs encode, second operand vs first,
+   count-down vs count-up). Ordinary sizes and single options must behave exactly as before."""
 extra = EXTRA[style]
 props = [json.loads(l) for l in open('/verif/properties.jsonl')]
 only = [x for x in os.environ.get("WAVE_ONLY", "").split(",") if x]
